@@ -430,12 +430,39 @@ fn steps_of(req: &UserReq) -> usize {
         UserReq::Command(true, _) => 2,
         UserReq::TimeSync(0) | UserReq::TimeSync(1) => 2,
         // open, first block, last block, close (the reader's terminal callback precedes the CLOSE)
-        UserReq::ReadFile(_) => 4,
+        UserReq::ReadFile(_) | UserReq::ReadDirectory => 4,
+        // authenticate first
+        UserReq::ReadFileAuth(_) => 5,
         _ => 1,
     }
 }
 
-fn faithful_reply(rq: &[u8]) -> Vec<u8> {
+/// the step, if any, that follows the request's terminal callback (the CLOSE after a complete file transfer)
+fn trailing_step(req: &UserReq) -> Option<usize> {
+    match req {
+        UserReq::ReadFile(_) | UserReq::ReadDirectory => Some(3),
+        UserReq::ReadFileAuth(_) => Some(4),
+        _ => None,
+    }
+}
+
+/// two directory entries as g70v7 descriptors, back to back
+fn directory_bytes() -> Vec<u8> {
+    let mut all = vec![];
+    for (name, size) in [(&b"first.txt"[..], 1234u32), (&b"second"[..], 99)] {
+        all.extend_from_slice(&20u16.to_le_bytes());
+        all.extend_from_slice(&(name.len() as u16).to_le_bytes());
+        all.extend_from_slice(&1u16.to_le_bytes());
+        all.extend_from_slice(&size.to_le_bytes());
+        all.extend_from_slice(&ra::time48(1_600_000_000_000));
+        all.extend_from_slice(&0x1FFu16.to_le_bytes());
+        all.extend_from_slice(&0u16.to_le_bytes());
+        all.extend_from_slice(name);
+    }
+    all
+}
+
+fn faithful_reply(rq: &[u8], dir: bool) -> Vec<u8> {
     let seq = rq[0] & 15;
     let le32 = |b: &[u8]| u32::from_le_bytes([b[0], b[1], b[2], b[3]]);
     let free = |v: u8, obj: Vec<u8>| {
@@ -470,8 +497,35 @@ fn faithful_reply(rq: &[u8]) -> Vec<u8> {
                 })
                 .to_le_bytes(),
             );
-            o.extend_from_slice(&[b'a' + block as u8; 5]);
+            if dir {
+                // the listing is cut in the middle of the first descriptor
+                let all = directory_bytes();
+                if block == 0 {
+                    o.extend_from_slice(&all[..13]);
+                } else {
+                    o.extend_from_slice(&all[13..]);
+                }
+            } else {
+                o.extend_from_slice(&[b'a' + block as u8; 5]);
+            }
             free(5, o)
+        }
+        // AUTHENTICATE_FILE: the key is granted
+        29 => {
+            let mut o = vec![];
+            o.extend_from_slice(&12u16.to_le_bytes());
+            o.extend_from_slice(&0u16.to_le_bytes());
+            o.extend_from_slice(&12u16.to_le_bytes());
+            o.extend_from_slice(&0u16.to_le_bytes());
+            o.extend_from_slice(&0x0000_0007u32.to_le_bytes());
+            free(2, o)
+        }
+        // WRITE of a file block: g70v6 with the handle and block number of the request
+        ra::F_WRITE if rq.len() >= 16 && rq[2] == 70 && rq[3] == 5 => {
+            let mut o = vec![];
+            o.extend_from_slice(&rq[8..16]);
+            o.push(0);
+            free(6, o)
         }
         28 => {
             let name = b"file.txt";
@@ -514,6 +568,68 @@ enum Fail {
     RemoveAssociationThenReply,
     /// keep the channel busy with unrelated user messages and unsolicited traffic while the reply is lost
     ReplyLostWithChatter,
+    /// (file operations) the reply arrives but is not an acceptance: see `spoil_file_reply`
+    BadReply(u8),
+}
+
+const BAD_REPLIES: u8 = 8;
+
+/// turn the faithful reply to a file request into one that does not grant it; None when the mutation
+/// does not apply to this reply
+fn spoil_file_reply(reply: &[u8], rq: &[u8], m: u8) -> Option<(Vec<u8>, &'static str)> {
+    // [ctrl, 0x81, iin1, iin2, 70, v, 0x5B, 1, len, len, object...]
+    if reply.len() < 10 || reply[4] != 70 {
+        return None;
+    }
+    let v = reply[5];
+    let mut b = reply.to_vec();
+    match m {
+        0 => {
+            match v {
+                4 if b.len() > 22 => b[22] = 5,
+                6 if b.len() > 18 => b[18] = 16,
+                2 if b.len() >= 22 => b[18..22].copy_from_slice(&[0, 0, 0, 0]),
+                _ => return None,
+            }
+            Some((b, "status"))
+        }
+        1 => {
+            b[5] = if v == 4 { 6 } else { 4 };
+            Some((b, "variation"))
+        }
+        2 => {
+            b.truncate(b.len() - 2);
+            Some((b, "truncated"))
+        }
+        3 => {
+            b.truncate(4);
+            b[3] = 0x01;
+            Some((b, "iin2-no-func"))
+        }
+        4 => {
+            b.truncate(4);
+            Some((b, "empty"))
+        }
+        5 => {
+            let body = b[4..].to_vec();
+            b.extend(body);
+            Some((b, "two-headers"))
+        }
+        6 => {
+            if rq[1] != 26 {
+                return None;
+            }
+            b[10] ^= 1;
+            Some((b, "wrong-handle"))
+        }
+        _ => {
+            if v != 5 {
+                return None;
+            }
+            b[14] = b[14].wrapping_add(1);
+            Some((b, "wrong-block"))
+        }
+    }
 }
 
 /// Part B: every request kind x every step x every failure
@@ -538,7 +654,9 @@ async fn failure_scenario(
     settle().await;
     let t_start = sim.now();
     let nsteps = steps_of(&req);
+    let dir = matches!(req, UserReq::ReadDirectory);
     let mut last_request: Option<Vec<u8>> = None;
+    let mut spoiled: Option<&'static str> = None;
     let mut k = 0usize;
     loop {
         let rx = sim.collect();
@@ -547,7 +665,7 @@ async fn failure_scenario(
             .iter()
             .any(|x| matches!(x, Rx::Link { frame, .. } if frame.ctrl & 0x4F == rl_req_status()));
         if sim.result_of(id).is_some()
-            && !(matches!(req, UserReq::ReadFile(_)) && k == 3 && step == 3)
+            && !(trailing_step(&req) == Some(k) && trailing_step(&req) == Some(step))
         {
             break;
         }
@@ -564,6 +682,25 @@ async fn failure_scenario(
         }
         if k == step && fail != Fail::None {
             last_request = reqs.first().map(|x| x.3.clone());
+            if let (Fail::BadReply(m), Some(rq)) = (fail, last_request.as_ref()) {
+                match spoil_file_reply(&faithful_reply(rq, dir), rq, m) {
+                    Some((bytes, what)) => {
+                        hist.push(format!(
+                            "t={} -> {} ; reply spoiled ({what}): {}",
+                            sim.now(),
+                            hex(&rq[..rq.len().min(24)]),
+                            hex(&bytes[..bytes.len().min(40)])
+                        ));
+                        spoiled = Some(what);
+                        sim.send_from(OUT, &bytes);
+                        settle().await;
+                    }
+                    None => {
+                        // the mutation has no meaning for this step's reply
+                        return;
+                    }
+                }
+            }
             break;
         }
         // faithful reply
@@ -576,7 +713,7 @@ async fn failure_scenario(
                 sim.now(),
                 hex(&rq[..rq.len().min(24)])
             ));
-            sim.send_from(OUT, &faithful_reply(rq));
+            sim.send_from(OUT, &faithful_reply(rq, dir));
         }
         settle().await;
         k += 1;
@@ -587,11 +724,18 @@ async fn failure_scenario(
     }
     out::eval(1);
     out::distinct(&format!("B/{kind}/step{step}/{fail:?}"));
+    if let Some(what) = spoiled {
+        out::count(&format!("file_reply_spoiled_{}", what.replace('-', "_")), 1);
+    }
     let t_fail = sim.now();
     let mut bound = t_r + 1;
     match fail {
         Fail::None => {}
         Fail::ReplyLost => {
+            sim.advance(t_r).await;
+        }
+        Fail::BadReply(_) => {
+            // a reply that cannot be understood may be ignored until the timeout; one that refuses ends the task at once
             sim.advance(t_r).await;
         }
         Fail::ReplyLostWithChatter => {
@@ -649,7 +793,7 @@ async fn failure_scenario(
                 .await;
             settle().await;
             if let Some(rq) = last_request.as_ref() {
-                sim.send_from(OUT, &faithful_reply(rq));
+                sim.send_from(OUT, &faithful_reply(rq, dir));
                 settle().await;
             }
             sim.advance(t_r).await;
@@ -694,8 +838,7 @@ async fn failure_scenario(
                     .take(48)
                     .collect::<String>()
             ));
-            let trailing_step = matches!(req, UserReq::ReadFile(_)) && step == 3;
-            if trailing_step {
+            if trailing_step(&req) == Some(step) {
                 // the file was delivered completely before the CLOSE went out: whatever happens to the CLOSE, the one
                 // terminal callback was `completed`
                 if !text.starts_with("Ok") {
@@ -722,6 +865,7 @@ async fn failure_scenario(
                     );
                 } else {
                     out::count("faithful_exchange_ok", 1);
+                    out::count(&format!("faithful_ok_{}", kind.replace('-', "_")), 1);
                 }
             } else {
                 if text.starts_with("Ok") {
@@ -740,6 +884,7 @@ async fn failure_scenario(
                     viol(a, idx, "outcome_too_late", &format!("{kind}|{fail:?}"), format!("request resolved {} ms after the failure point (bound {bound} ms): {text}", t_done - t_fail), &hist);
                 } else {
                     out::count("failure_reported_in_time", 1);
+                    out::count(&format!("failure_reported_{}", kind.replace('-', "_")), 1);
                 }
             }
         }
@@ -870,6 +1015,13 @@ pub fn run(a: &ShardArgs) -> Result<(), String> {
         (UserReq::LinkStatus, "link-status"),
         (UserReq::ReadFile(64), "read-file"),
         (UserReq::GetFileInfo, "get-file-info"),
+        (UserReq::ReadFileAuth(64), "read-file-auth"),
+        (UserReq::ReadDirectory, "read-directory"),
+        (UserReq::FileAuth, "file-auth"),
+        (UserReq::FileOpen, "file-open"),
+        (UserReq::FileWriteBlock(0, false, 40), "file-write-block"),
+        (UserReq::FileWriteBlock(3, true, 7), "file-write-last-block"),
+        (UserReq::FileClose, "file-close"),
         (
             UserReq::EmptyResponse(ra::F_RECORD_CURRENT_TIME),
             "empty-response",
@@ -887,6 +1039,11 @@ pub fn run(a: &ShardArgs) -> Result<(), String> {
     let mut b_cases: Vec<(UserReq, &str, usize, Fail)> = vec![];
     for (rq, kind) in &kinds {
         for step in 0..steps_of(rq) {
+            if kind.contains("file") || kind.contains("directory") {
+                for m in 0..BAD_REPLIES {
+                    b_cases.push((rq.clone(), kind, step, Fail::BadReply(m)));
+                }
+            }
             for f in fails {
                 if f == Fail::None && step > 0 {
                     continue;
